@@ -7,9 +7,22 @@ class Fn:
     def __repr__(self): return f"<Fn {self.name} {len(self.blocks)} bbs>"
 
 FN_RE = re.compile(r'^fn (.+?)\((.*)\) -> (.+?) \{$')
-CONST_RE = re.compile(r'^const (.+?): (.+?) = \{$')
+CONST_RE = re.compile(r'^const (.+) = \{$')
 BB_RE = re.compile(r'^\s+(bb\d+)(?: \(cleanup\))?: \{$')
 LET_RE = re.compile(r'^\s+let (?:mut )?(_\d+): (.+);$')
+
+def const_name(decl):
+    """`name: Type` -> name; the separator is the first ": " outside <...>, {...}, (...) (spans contain ": ")."""
+    depth = 0
+    for i, ch in enumerate(decl):
+        if ch in "<{(":
+            depth += 1
+        elif ch in ")}" or (ch == ">" and decl[i - 1] != "-"):
+            depth -= 1
+        elif ch == ":" and depth == 0 and decl[i:i + 2] == ": ":
+            return decl[:i]
+    return decl
+
 
 def parse(path):
     fns={}
@@ -27,7 +40,7 @@ def parse(path):
         if cur is None:
             m=CONST_RE.match(line)
             if m:
-                cur=Fn('const '+m.group(1), line); fns.setdefault(cur.name, cur)
+                cur=Fn('const '+const_name(m.group(1)), line); fns.setdefault(cur.name, cur)
             continue
         if line=='}':
             cur=None; bb=None; continue
